@@ -148,6 +148,27 @@ void gen_partitioned(Rng &rng, const MVar &v, long long numrecs, int nprocs, boo
     }
 }
 
+// make the arguments of a random subset of ranks invalid in one of the documented ways (C08)
+static void mutate_invalid(Rng &rng, const MVar &v, std::vector<Access> &acc, bool is_read) {
+    for (auto &a : acc) {
+        if (!a.active || !rng.chance(0.3)) continue;
+        size_t nd = v.dimids.size();
+        int kind = 1 + (int)rng.below(6);
+        if (nd == 0 && kind != INV_BAD_VARID && kind != INV_TYPE_CHAR) kind = rng.chance(0.5) ? INV_BAD_VARID : INV_TYPE_CHAR;
+        if (a.form == F_VARD && kind != INV_BAD_VARID) continue;
+        if (a.form == F_VAR && kind != INV_BAD_VARID && kind != INV_TYPE_CHAR) a.form = F_VARA;
+        a.invalid = kind;
+        size_t d = nd ? rng.below(nd) : 0;
+        auto setall = [&](bool is_start, long long val) { auto &x = is_start ? a.start : a.count; if (a.form == F_VARN) { for (auto &s : (is_start ? a.nstart : a.ncount)) if (d < s.size()) s[d] = val; } if (d < x.size()) x[d] = val; };
+        switch (kind) {
+        case INV_BAD_START: if (v.isrec && d == 0 && !is_read) d = nd > 1 ? 1 : 0; if (v.isrec && d == 0 && !is_read) { a.invalid = INV_BAD_VARID; break; } setall(true, v.shape[d] + 2); break;
+        case INV_BAD_EDGE: if (v.isrec && d == 0) d = nd > 1 ? 1 : 0; if (v.isrec && d == 0) { a.invalid = INV_BAD_VARID; break; } if (a.form == F_VAR1) a.form = F_VARA; setall(true, 0); setall(false, v.shape[d] + 1); break;
+        case INV_NEG_COUNT: if (a.form == F_VAR1) a.form = F_VARA; setall(false, -1 - (long long)rng.below(3)); break;
+        case INV_BAD_STRIDE: if (a.form == F_VARN || a.form == F_VAR1 || a.form == F_VARA) { a.form = F_VARS; } if (a.stride.size() != nd) a.stride.assign(nd, 1); a.stride[d] = -(long long)rng.below(2); break;
+        default: break;
+        }
+    }
+}
 static int pick_type(Rng &rng, int format) { return format == 5 ? (int)rng.range(NC_BYTE, NC_UINT64) : (int)rng.range(NC_BYTE, NC_DOUBLE); }
 static AttVal gen_att(Rng &rng, int format) {
     AttVal a; a.type = pick_type(rng, format); int n = rng.chance(0.15) ? 0 : (int)rng.range(1, 9);
@@ -159,9 +180,10 @@ Program gen_program(uint64_t seed, const GenParams &gp, const std::string &profi
     Program p; p.seed = seed; p.cfg.profile = profile;
     uint64_t sd = seed ^ 0x5bd1e995; Rng rng(Rng::splitmix(sd));
     gen_config(rng, p, gp);
-    if (gp.iget_overlap_strict && rng.chance(0.1)) p.cfg.flags |= 1;   // strict checking of overlapping iget requests
+    if (gp.iget_overlap_strict && rng.chance(0.1)) p.cfg.flags |= 1;
+    if (gp.invalid_args && rng.chance(0.1)) p.cfg.flags |= 2;   // strict checking of overlapping iget requests
     int np = p.cfg.sim.nprocs;
-    Model gm; gm.init(np, gp.multi_file ? 3 : 1); gm.cur_ops = &p.ops; gm.strict_iget_overlap = (p.cfg.flags & 1) != 0; { auto h = p.cfg.sim.env.find("PNETCDF_HINTS"); gm.aggr_env = (h != p.cfg.sim.env.end() && h->second.find("nc_num_aggrs_per_node") != std::string::npos); }
+    Model gm; gm.init(np, gp.multi_file ? 3 : 1); gm.cur_ops = &p.ops; gm.strict_iget_overlap = (p.cfg.flags & 1) != 0; { auto sm = p.cfg.sim.env.find("PNETCDF_SAFE_MODE"); gm.safe_mode = (sm != p.cfg.sim.env.end() && sm->second != "0"); } { auto h = p.cfg.sim.env.find("PNETCDF_HINTS"); gm.aggr_env = (h != p.cfg.sim.env.end() && h->second.find("nc_num_aggrs_per_node") != std::string::npos); }
     auto it = p.cfg.sim.env.find("PNETCDF_RELAX_COORD_BOUND"); gm.strict_coord = (it != p.cfg.sim.env.end() && it->second == "0");
     auto emit = [&](Op op) -> bool { p.ops.push_back(op); gm.cur_ops = &p.ops; bool ok = model_step(gm, p.ops.back()); if (!ok) { p.ops.pop_back(); gm.opidx--; } return ok; };
     auto checkpoint = [&]() { Op o; o.kind = OP_CHECKPOINT; emit(o); };
@@ -232,11 +254,13 @@ Program gen_program(uint64_t seed, const GenParams &gp, const std::string &profi
             if (x < 0.34) {   // write
                 o.kind = OP_PUT; o.coll = !indep;
                 gen_partitioned(rng, v, f.numrecs, np, o.coll, gp, o.acc);
+                if (gp.invalid_args && o.coll && (!v.isrec || (p.cfg.flags & 2))) mutate_invalid(rng, v, o.acc, false);   // invalid arguments in a collective put to a record variable: known finding, 10% of seeds
                 if (emit(o) && gp.syncpoint_after_write && rng.chance(0.8)) { Op s; s.kind = OP_SYNCPOINT; s.file = fi; emit(s); }
             } else if (x < 0.62) {   // read
                 o.kind = OP_GET; o.coll = !indep;
                 int fam = -1; if (o.coll) { double y = (rng.next() >> 11) * (1.0 / 9007199254740992.0); fam = !gp.all_forms ? 0 : y < 0.7 ? 0 : y < 0.88 ? 1 : 2; }
                 for (int r = 0; r < np; r++) { Access a = gen_region_access(rng, v, f.ranks[r].numrecs, true, false, gp, fam); if (rng.chance(0.15)) a.active = false; if (rng.chance(0.1) && fam <= 0) { a.form = F_VAR; a.flexible = false; a.stride.clear(); a.imap.clear(); } o.acc.push_back(a); }
+                if (gp.invalid_args && o.coll) mutate_invalid(rng, v, o.acc, true);
                 emit(o);
             } else if (x < 0.70 && gp.indep) { o.kind = indep ? OP_END_INDEP : OP_BEGIN_INDEP; emit(o); }
             else if (x < 0.74) { o.kind = OP_SYNCPOINT; emit(o); }
